@@ -85,7 +85,8 @@ def build(case):
         if case["elf_type"] == "relocatable":
             obj = objs[0] if len(objs) == 1 else link(objs, partial_link=True)
         else:
-            obj = link(objs, linkgen.build_layout(case["layout"], "object"))
+            # compiled code may call the compiler runtime (xtensa multiplication, ...)
+            obj = link(objs, linkgen.build_layout(case["layout"], "object"), use_runtime=case["source"] == "cc")
     except Exception as e:
         raise Discard("link:%s" % type(e).__name__)
     return obj
@@ -362,11 +363,8 @@ def compare(exp, view, data, who, target):
 _BAD_WORDS = re.compile(r"warning|error|corrupt|invalid|bad |unable|cannot|out of range|<corrupt|<unknown|unrecognized", re.I)
 
 
-def evaluate(case, hist=None, tmpdir=None, info=None):
-    hist = collections.Counter() if hist is None else hist
-    info = {} if info is None else info
-    if not READELF or not LLVM_READELF:
-        raise HarnessError("readelf / llvm-readelf not found")
+def stage1(case, hist, info):
+    """Build, write, read with the spec parser.  -> (message or None, state)."""
     from ppci.format.elf import write_elf
 
     target = case["target"]
@@ -384,53 +382,127 @@ def evaluate(case, hist=None, tmpdir=None, info=None):
     data = f.getvalue()
     exp = expected(obj, case["elf_type"], target)
     hist["written:%s:%s" % (target, case["elf_type"])] += 1
-    # 1. own parser
     try:
         view = own_view(data)
     except elfref.ElfFormatError as e:
-        return "vf/elfref.py rejects the file: %s" % e
+        return "vf/elfref.py rejects the file: %s" % e, None
     msg = compare(exp, view, data, "elfref", target)
     if msg:
+        return msg, None
+    return None, {"data": data, "exp": exp, "view": view, "target": target}
+
+
+def check_tool_output(who, rc, out, err, state, hist):
+    """One tool's verdict on one file: silent acceptance + equal view."""
+    if rc != 0 or err.strip():
+        return "%s exits %d, stderr: %s" % (who, rc, err.strip()[:400])
+    bad = [ln for ln in out.splitlines() if _BAD_WORDS.search(ln) and not ln.startswith(("  ", "Symbol table", "Relocation section", "File: "))]
+    if bad:
+        return "%s prints: %s" % (who, bad[0][:300])
+    try:
+        tv = tool_view(out, state["exp"]["class"])
+    except ToolParseError as e:
+        hist["tool_output_unparsed:%s" % who] += 1
+        hist["tool_output_unparsed_detail:%s" % str(e)[:80]] += 1
+        return None
+    msg = compare(state["exp"], tv, state["data"], who, state["target"])
+    if msg:
         return msg
-    # 2. the tools
-    own_dir = tmpdir is None
-    d = tempfile.mkdtemp(prefix="vf-C17-") if own_dir else tmpdir
-    path = os.path.join(d, "t%d.elf" % os.getpid())
+    hist["tool_views_equal_object"] += 1
+    return None
+
+
+def stage3(state):
+    """The segments must be loadable as the specification demands (checked last, so that
+    everything else is still compared for images at unaligned addresses)."""
+    msg = elfref.check_loadable(state["view"]["segments"])
+    if msg:
+        return "vf/elfref.py rejects the file: " + msg
+    return None
+
+
+TOOLS = (("readelf", READELF), ("llvm-readelf", LLVM_READELF))
+
+
+def run_tool_batch(tool, paths):
+    """One invocation for many files.  -> (rc, {path: text}, stderr)."""
+    p = subprocess.run([tool, "-W", "-h", "-S", "-s", "-r", "-l"] + list(paths), capture_output=True, timeout=600)
+    out = p.stdout.decode("latin-1")
+    err = p.stderr.decode("latin-1")
+    if len(paths) == 1:
+        return p.returncode, {paths[0]: out}, err
+    parts = {}
+    cur = None
+    for ln in out.splitlines(True):
+        if ln.startswith("File: ") and ln[6:].strip() in paths:
+            cur = ln[6:].strip()
+            parts[cur] = ""
+            continue
+        if cur is not None:
+            parts[cur] += ln
+    return p.returncode, parts, err
+
+
+def evaluate(case, hist=None, tmpdir=None, info=None):
+    """All stages for one case, the tools run on this file alone (replay path)."""
+    hist = collections.Counter() if hist is None else hist
+    info = {} if info is None else info
+    if not READELF or not LLVM_READELF:
+        raise HarnessError("readelf / llvm-readelf not found")
+    msg, state = stage1(case, hist, info)
+    if msg:
+        return msg
+    d = tempfile.mkdtemp(prefix="vf-C17-")
+    path = os.path.join(d, "t.elf")
     try:
         with open(path, "wb") as fh:
-            fh.write(data)
-        for who, tool in (("readelf", READELF), ("llvm-readelf", LLVM_READELF)):
+            fh.write(state["data"])
+        for who, tool in TOOLS:
             rc, out, err = run_tool(tool, path)
-            if rc != 0 or err.strip():
-                return "%s exits %d, stderr: %s" % (who, rc, err.strip()[:400])
-            bad = [ln for ln in out.splitlines() if _BAD_WORDS.search(ln) and not ln.startswith(("  ", "Symbol table", "Relocation section")) ]
-            if bad:
-                return "%s prints: %s" % (who, bad[0][:300])
-            try:
-                tv = tool_view(out, exp["class"])
-            except ToolParseError as e:
-                hist["tool_output_unparsed:" + who] += 1
-                raise Discard("tool_output_unparsed")
-            msg = compare(exp, tv, data, who, target)
+            msg = check_tool_output(who, rc, out, err, state, hist)
             if msg:
                 return msg
     finally:
-        if own_dir:
-            shutil.rmtree(d, ignore_errors=True)
-        else:
-            try:
-                os.unlink(path)
-            except OSError:
-                pass
-    return None
+        shutil.rmtree(d, ignore_errors=True)
+    return stage3(state)
 
 
 def replay(case):
     return evaluate(case)
 
 
+_CONGR = re.compile(r"p_offset 0x([0-9a-f]+) and p_vaddr 0x([0-9a-f]+) are not congruent modulo p_align 0x1000$")
+
+
 def classify(case, msg):
+    from ..core import open_finding_ids
+
+    open_ids = open_finding_ids(PID)
+    # KF1: big-endian targets get little-endian header fields: e_ehsize 52 reads back as 0x3400
+    if "C17-KF1" in open_ids and case.get("target") == "microblaze" and msg == "vf/elfref.py rejects the file: e_ehsize 13312":
+        return "C17-KF1"
+    # KF2: p_offset is rounded up to a page whatever p_vaddr is
+    m = _CONGR.search(msg)
+    if "C17-KF2" in open_ids and m and msg.startswith("vf/elfref.py rejects the file: PT_LOAD segment"):
+        off, vaddr = int(m.group(1), 16), int(m.group(2), 16)
+        ld = case.get("layout") or {}
+        if off % 0x1000 == 0 and vaddr % 0x1000 != 0 and any(mm["location"] == vaddr for mm in ld.get("memories", [])):
+            return "C17-KF2"
     return None
+
+
+def big_endian_defect_present():
+    """Probe for KF1 on the tree under test: an empty microblaze object."""
+    from ppci.binutils.objectfile import ObjectFile
+    from ppci.format.elf import write_elf
+
+    f = io.BytesIO()
+    write_elf(ObjectFile(linkgen.get_arch("microblaze")), f, type="relocatable")
+    try:
+        elfref.parse_elf(f.getvalue())
+    except elfref.ElfFormatError:
+        return True
+    return False
 
 
 # ---------------------------------------------------------------------------
@@ -477,16 +549,18 @@ def c_source(draw):
 
 
 @st.composite
-def elf_case(draw, max_size=48):
-    target = draw(st.sampled_from(TARGETS))
-    source = draw(st.sampled_from(["linkgen", "linkgen", "asm", "cc"]))
-    elf_type = draw(st.sampled_from(["relocatable", "executable", "executable"]))
+def elf_case(draw, max_size=48, targets=tuple(TARGETS)):
+    target = draw(st.sampled_from(list(targets)))
+    source = draw(st.sampled_from(["linkgen", "asm", "cc"]))
+    elf_type = draw(st.sampled_from(["relocatable", "executable", "executable"] if target != "x86_64" else ["relocatable", "executable"]))
     case = {"source": source, "target": target, "elf_type": elf_type, "layout": None}
     if source == "linkgen":
         secnames = draw(st.lists(st.sampled_from(linkgen.ID_NAMES[:4] + linkgen.FREE_NAMES[:4]), unique=True, min_size=1, max_size=4))
         # non-x86 targets cannot write RELA tables: give them relocation-free relocatables most of the time
         relocs = elf_type == "executable" or target == "x86_64" or draw(st.integers(0, 5)) == 0
-        objs = draw(linkgen.object_set(target, secnames, max_size=max_size, max_objects=3, with_relocs=relocs))
+        # the x86-64 writer maps abs64/abs32/rel32/absaddr64 only; other types make write_elf raise KeyError (a rejection)
+        rtypes = [("absaddr64", 8, 4)] if target == "x86_64" and elf_type == "relocatable" and draw(st.integers(0, 7)) else None
+        objs = draw(linkgen.object_set(target, secnames, max_size=max_size, max_objects=3, with_relocs=relocs, rtypes=rtypes))
         if elf_type == "relocatable" and draw(st.booleans()):
             objs = objs[:1]
         case["objects"] = objs
@@ -499,7 +573,11 @@ def elf_case(draw, max_size=48):
                 o["relocs"] = [r for r in o["relocs"] if r["sym"] not in dead]
             case["layout"] = draw(linkgen.layout_for(objs, secnames, fit=draw(st.sampled_from(["exact", "generous", "round"])), entry_candidates=sorted(defined), allow_sectiondata=draw(st.booleans())))
     elif source == "asm":
-        prog = draw(asmgen.program(target, max_objects=2 if elf_type == "executable" else draw(st.sampled_from([1, 2])), max_items=8, words=target != "microblaze"))
+        words = ["dcd ={L}", "dq ={L}"]
+        kinds = None
+        if target == "x86_64" and elf_type == "relocatable" and draw(st.integers(0, 7)):
+            words, kinds = ["dq ={L}"], ("branch", "load")
+        prog = draw(asmgen.program(target, max_objects=2 if elf_type == "executable" else draw(st.sampled_from([1, 2])), max_items=8, words=words, kinds=kinds, pads=[0, 4, 8, 12, 24, 60]))
         if elf_type == "relocatable" and target != "x86_64" and draw(st.integers(0, 5)):
             # relocation-free variant
             for od in prog["objects"]:
@@ -508,7 +586,7 @@ def elf_case(draw, max_size=48):
         case["prog"] = prog
         if elf_type == "executable":
             gl = sorted({g for od in prog["objects"] for g in od["globals"]})
-            case["layout"] = draw(linkgen.simple_layout(asmgen.section_names(prog), entry_candidates=gl, min_size=0x8000))
+            case["layout"] = draw(linkgen.simple_layout(asmgen.section_names(prog), entry_candidates=gl, min_size=0x400, gaps=[0, 0x10, 0x100]))
     else:
         src, last, ext = draw(c_source())
         if elf_type == "executable" and ext:
@@ -519,35 +597,89 @@ def elf_case(draw, max_size=48):
     return case
 
 
+def _case_classes(case, info):
+    cls = ["src_" + case["source"], "type_" + case["elf_type"], "target_" + case["target"]]
+    ld = case.get("layout")
+    if ld:
+        cls.append("images_%d" % len(ld["memories"]))
+        cls.append("image_unaligned" if any(m["location"] % 0x1000 for m in ld["memories"]) else "images_page_aligned")
+        if ld.get("entry"):
+            cls.append("with_entry")
+    if info.get("with_rela"):
+        cls.append("with_rela")
+    return cls
+
+
+BATCH = 32
+
+
 def _worker(arg):
-    seed, n, max_size = arg
+    """Phase A (Hypothesis): build, write, spec parser - failures are shrunk.
+    Phase B: readelf and llvm-readelf over the written files, many files per
+    invocation (llvm-readelf needs about a second to start), then the loadability rule."""
+    seed, n, max_size, targets, excluded = arg
     _quiet()
     stats = Stats()
     tmp = tempfile.mkdtemp(prefix="vf-C17-")
+    pending = []
 
     def prop(case):
         hist = collections.Counter()
         info = {}
         try:
-            msg = evaluate(case, hist, tmp, info)
+            msg, state = stage1(case, hist, info)
         finally:
             stats.hist.update(hist)
-        cls = ["src_" + case["source"], "type_" + case["elf_type"], "target_" + case["target"]]
-        ld = case.get("layout")
-        if ld:
-            cls.append("images_%d" % len(ld["memories"]))
-            cls.append("image_unaligned" if any(m["location"] % 0x1000 for m in ld["memories"]) else "images_page_aligned")
-            if ld.get("entry"):
-                cls.append("with_entry")
-        # non-trivial: decided on the object actually written
         nt = bool(info.get("nontrivial"))
-        if info.get("with_rela"):
-            cls.append("with_rela")
-        stats.case(case, nt, case if nt and not stats.samples else None, classes=cls)
+        stats.case(case, nt, case if nt and not stats.samples else None, classes=_case_classes(case, info))
+        if msg is None:
+            path = os.path.join(tmp, "f%05d.elf" % len(pending))
+            with open(path, "wb") as fh:
+                fh.write(state["data"])
+            pending.append((case, path, state))
         return msg
 
+    fails = []
     try:
-        fails = hyp_search(elf_case(max_size=max_size), prop, n, seed, stats, classify=classify, budget_s=900)
+        fails = hyp_search(elf_case(max_size=max_size, targets=targets), prop, n, seed, stats, classify=classify, budget_s=900)
+        for k in excluded:
+            # share of the draws that would have gone to the excluded target
+            stats.excluded[k] += n // len(TARGETS)
+        # Hypothesis may evaluate a case more than once: keep one entry per case
+        seen = set()
+        uniq = []
+        from ..core import jhash
+
+        for item in pending:
+            h = jhash(item[0])
+            if h not in seen:
+                seen.add(h)
+                uniq.append(item)
+        verdict = {}
+        for i in range(0, len(uniq), BATCH):
+            chunk = uniq[i : i + BATCH]
+            paths = [c[1] for c in chunk]
+            for who, tool in TOOLS:
+                rc, parts, err = run_tool_batch(tool, paths)
+                single = rc != 0 or err.strip() or any(p not in parts for p in paths)
+                for case, path, state in chunk:
+                    if path in verdict:
+                        continue
+                    if single:
+                        rc1, out1, err1 = run_tool(tool, path)
+                    else:
+                        rc1, out1, err1 = 0, parts[path], ""
+                    msg = check_tool_output(who, rc1, out1, err1, state, stats.hist)
+                    if msg:
+                        verdict[path] = msg
+        for case, path, state in uniq:
+            msg = verdict.get(path) or stage3(state)
+            if msg:
+                kid = classify(case, msg)
+                if kid:
+                    stats.known[kid] += 1
+                elif len(fails) < 3:
+                    fails.append((case, msg))
     finally:
         shutil.rmtree(tmp, ignore_errors=True)
     return stats, fails
@@ -556,8 +688,16 @@ def _worker(arg):
 def run(ctx):
     if not READELF or not LLVM_READELF:
         raise HarnessError("readelf / llvm-readelf not found")
-    n = ctx.scale(480, 20000)
-    args = [(subseed(ctx.seed, PID, w), n // 16, ctx.scale(48, 1024)) for w in range(16)]
+    from ..core import open_finding_ids
+
+    n = ctx.scale(400, 20000)
+    targets = list(TARGETS)
+    excluded = []
+    if "C17-KF1" in open_finding_ids(PID) and big_endian_defect_present():
+        # every big-endian file is unreadable from its first header field on: nothing else can be compared
+        targets.remove("microblaze")
+        excluded.append("C17-KF1")
+    args = [(subseed(ctx.seed, PID, w), n // 16, ctx.scale(48, 1024), tuple(targets), tuple(excluded)) for w in range(16)]
     ctx.pmap(_worker, args)
-    ctx.extra["targets_covered"] = TARGETS
+    ctx.extra["targets_covered"] = targets
     ctx.extra["tools"] = {"readelf": READELF, "llvm-readelf": LLVM_READELF}
